@@ -56,12 +56,25 @@ impl Property for C10 {
                 sep.push_str(". ");
                 let mut a_text = a.render();
                 // force the shapes where state could leak: A ending on the conjunction / separator word
+                let mut b_text = b.render();
+                let mut th_bits = th_bits;
                 match tail {
                     0 => a_text = format!("{} {}", a_text.trim_end(), v.conj),
                     1 => a_text = format!("{} {}", a_text.trim_end(), v.sep),
+                    2 => {
+                        // A carries an unbalanced quote / bracket glued to a word; B is a chain of small numbers
+                        // held together by a linking word (one with an apostrophe where the language has one)
+                        let opener = ["'", "\"", "(", "‘", "«"][ws[0] as usize % 5];
+                        let w0 = sw[idx(ws[1], sw.len())];
+                        a_text = if ws[2] & 1 == 0 { format!("{}{} {}", opener, w0, a_text) } else { format!("{} {}{}", a_text.trim_end(), opener, w0) };
+                        let link = v.linking.iter().find(|w| w.contains('\'')).copied().unwrap_or(v.linking[idx(ws[2], v.linking.len())]);
+                        let d = |n: u64| crate::spell::cardinal(&l2, n, &mut crate::choose::Canon).join(" ");
+                        b_text = format!("{} {} {} {} {}", d(2 + (ws[0] % 7) as u64), v.linking[idx(ws[1], v.linking.len())], d(2 + (ws[1] % 7) as u64), link, d(2 + (ws[2] % 7) as u64));
+                        th_bits = 10f64.to_bits();
+                    }
                     _ => {}
                 }
-                Case { lang: l2.clone(), shape: "asb".into(), a_text, sep, b_text: b.render(), th_bits, a: 0, b: 0, ca: vec![], cb: vec![] }
+                Case { lang: l2.clone(), shape: "asb".into(), a_text, sep, b_text, th_bits, a: 0, b: 0, ca: vec![], cb: vec![] }
             })
         });
         let punct = (lang_strategy(), num_strategy(1_000_000_000_000), num_strategy(1_000_000_000_000), choices(), choices(), 0usize..PUNCT_SEPS.len())
